@@ -77,15 +77,11 @@ Print Assumptions C07_sites_agree.
 
 Definition C07_setext_full_statement : Prop := forallb gen_site_ok SetExtGen.sites = true.
 (* every SetExtension passes the extension's declared Go type to the options message the extension
-   extends, in a branch that imports the extension's file — except the list_request call *)
-Theorem C07_setext_typed_partial :
-  forallb gen_site_ok (filter (fun r => negb (is_listrequest_site r)) SetExtGen.sites) = true.
-Proof. exact setext_typed_partial. Qed.
-Print Assumptions C07_setext_typed_partial.
-Theorem C07_setext_typed_refuted :
-  exists r, In r SetExtGen.sites /\ is_listrequest_site r = true /\ gen_site_typed r = false.
-Proof. exact setext_typed_refuted. Qed.
-Print Assumptions C07_setext_typed_refuted.
+   extends, in a branch that imports the extension's file.  Full since fix 985f10a: the one ill-typed call
+   (list_request on MethodOptions, a certain panic) was replaced by a positioned error *)
+Theorem C07_setext_typed : C07_setext_full_statement.
+Proof. exact setext_typed. Qed.
+Print Assumptions C07_setext_typed.
 
 Theorem C07_setj5ext_copy_total : forallb j5ext_call_ok SetExtGen.setj5ext_calls = true.
 Proof. exact setj5ext_calls_ok. Qed.
@@ -115,13 +111,13 @@ Print Assumptions C07_object_shell_accepted.
 
 (* ---- whole files: any number of declarations, objects and oneofs with any number of properties
    (each property contributes what it contributes alone: conversion reads neither the import list nor the
-   errors recorded so far).  Without list requests the converter does not panic and every output file
-   links; a file of in-language declarations (minus the recorded gaps) is accepted; and it stays accepted
+   errors recorded so far).  The converter does not panic and every output file links — for EVERY list of
+   declarations (since fix 985f10a a list request is an error, not a panic); a file of in-language
+   declarations (minus the recorded gaps, which include list requests) is accepted; and it stays accepted
    when any declarations are removed: nothing depends on an unrelated declaration being present *)
-Theorem C07_file_total_links_partial : forall ds, no_list_requests ds ->
-  file_verdict ds <> VPanic /\ file_verdict ds <> VLinkErr.
-Proof. exact file_total_links. Qed.
-Print Assumptions C07_file_total_links_partial.
+Theorem C07_file_total_links : forall ds, file_verdict ds <> VPanic /\ file_verdict ds <> VLinkErr.
+Proof. exact file_total_links_all. Qed.
+Print Assumptions C07_file_total_links.
 Theorem C07_file_accepted_partial : forall ds,
   no_list_requests ds -> forallb decl_in_language ds = true -> file_verdict ds = VOk.
 Proof. exact file_accepted. Qed.
@@ -133,17 +129,18 @@ Print Assumptions C07_file_isolation.
 
 (* services: full statement *)
 Definition C07_service_full_statement : Prop := service_full_statement.
-(* refuted: a method with a list request panics in SetExtension (recorded finding) *)
+(* refuted: a method with a list request is rejected (recorded finding "documented language not accepted:
+   listRequest"; before fix 985f10a it panicked) *)
 Theorem C07_service_refuted : ~ C07_service_full_statement.
 Proof. exact service_full_refuted. Qed.
 Print Assumptions C07_service_refuted.
-(* partial: without list requests a service never panics and always links (whatever its methods:
-   missing request, bad verb, unknown path parameter), and is accepted when in the language;
-   missing for the full statement: methods with a list request *)
-Theorem C07_service_total_links_partial : forall sv, no_list_request (sv_methods sv) ->
+(* EVERY service (any number of methods, also malformed ones, with or without list requests) neither panics
+   nor fails to link *)
+Theorem C07_service_total_links : forall sv,
   verdict_d (compile_service sv) <> VPanic /\ verdict_d (compile_service sv) <> VLinkErr.
 Proof. exact service_total_links. Qed.
-Print Assumptions C07_service_total_links_partial.
+Print Assumptions C07_service_total_links.
+(* partial acceptance: in-language services without list requests; missing for the full statement: list requests *)
 Theorem C07_service_accepted_partial : forall sv,
   service_in_language sv = true -> no_list_request (sv_methods sv) -> verdict_d (compile_service sv) = VOk.
 Proof. exact service_accepted. Qed.
@@ -181,23 +178,13 @@ Print Assumptions C07_panic_sites_agree.
    ====================================================================================================== *)
 Definition C07_front_end_statement := front_end_statement.
 
-(* totality: for EVERY byte string and every walker that returns, the front end returns; the one panic left
-   is the converter's own, on a declaration with a list request.  The lexer / parser part is C11's
-   parse_runes_total and parse_runes_tree_or_diags (a nil tree never reaches ParseAST) *)
+(* totality: for EVERY byte string, both parser modes and every walker that returns, the front end returns
+   (never a panic, never out of fuel).  The lexer / parser part is C11's parse_runes_total and
+   parse_runes_tree_or_diags (a nil tree never reaches ParseAST); the converter part is C07_file_total_links *)
 Theorem C07_front_end_total : forall walk ff input, walker_returns walk ->
-  match front_end walk ff input with
-  | Ok _ => True
-  | Panic _ => exists body t lf, walk body = Ok (WalkFile t lf) /\ file_panics (map erase lf) = true
-  | _ => False
-  end.
+  exists out, front_end walk ff input = Ok out.
 Proof. exact front_end_total. Qed.
 Print Assumptions C07_front_end_total.
-
-Theorem C07_front_end_never_panics : forall walk ff input, walker_returns walk ->
-  (forall body t lf, walk body = Ok (WalkFile t lf) -> no_list_requests (map erase lf)) ->
-  exists out, front_end walk ff input = Ok out.
-Proof. exact front_end_never_panics. Qed.
-Print Assumptions C07_front_end_never_panics.
 
 (* positions: every error of the parse, walk and convert stages has both ends at positions of the input
    (C11's parse_runes_positions for diagnostics and tree nodes + the walker's contract + the plumbing below),
@@ -217,25 +204,22 @@ Print Assumptions C07_front_end_errors_inside_file.
 
 (* "descriptors or errors": no error reported => every output file was built and links *)
 Theorem C07_front_end_descriptors : forall walk ff input v lf,
-  front_end walk ff input = Ok (FEConverted v lf) -> no_list_requests (map erase lf) ->
+  front_end walk ff input = Ok (FEConverted v lf) ->
   v = VOk /\ file_nerr (map erase lf) = 0.
 Proof. exact front_end_descriptors. Qed.
 Print Assumptions C07_front_end_descriptors.
 
-(* the statement holds for every walker that returns and respects the position contract, on files without
-   list requests.  MISSING for the real compiler: that the real walker returns and respects the contract
+(* the statement holds for every walker that returns and respects the position contract.
+   MISSING for the real compiler: that the real walker returns and respects the contract
    (no model: reviewed census + crash stream with measured coverage + CFrontFile/CFrontErrs correspondence) *)
 Theorem C07_front_end_partial : forall walk,
-  walker_returns walk -> walker_contract walk ->
-  (forall body t lf, walk body = Ok (WalkFile t lf) -> no_list_requests (map erase lf)) ->
-  C07_front_end_statement walk.
+  walker_returns walk -> walker_contract walk -> C07_front_end_statement walk.
 Proof. exact front_end_statement_partial. Qed.
 Print Assumptions C07_front_end_partial.
-(* ... and fails for a walker that hands on a list request (the recorded finding) *)
-Theorem C07_front_end_refuted_listrequest :
-  walker_returns listreq_walk /\ walker_contract listreq_walk /\ ~ C07_front_end_statement listreq_walk.
-Proof. exact front_end_statement_refuted_listreq. Qed.
-Print Assumptions C07_front_end_refuted_listrequest.
+(* a list request (which panicked before fix 985f10a) is one positioned conversion error *)
+Theorem C07_listrequest_is_a_positioned_error : front_end listreq_walk true [] = Ok (FEErrors SConvert [span0]).
+Proof. exact listreq_is_a_positioned_error. Qed.
+Print Assumptions C07_listrequest_is_a_positioned_error.
 
 (* ---- the error-position plumbing of the converter stage *)
 (* SourceNode.child + GetPos: the position of a node is a span stored in the location tree — its own, or
